@@ -97,6 +97,7 @@ class Expiration(Stream):
         refused; a lazily revoked secret must end revoked at the backend or irrevocable (when the strategy is live)"""
         out = []
         irrevocable, stored, nonrenewable, expired, batch = set(), set(), set(), set(), set()
+        ns_of = {}
         frozen = False
         for op, impl in zip(ops, impls):
             f = op.split("\t")
@@ -119,6 +120,15 @@ class Expiration(Stream):
                 batch.add(res.split(":")[1])
                 if f[3] == "0":
                     nonrenewable.add(res.split(":")[1])
+            if f[0] == "nsreg" and res.startswith("ok:"):
+                ns_of[res.split(":")[1]] = f[1]
+            if f[0] == "nsdelete" and res == "ok":
+                o2 = _obs(impl)
+                mine = set(l for l, n in ns_of.items() if n == f[1] and l in stored)
+                lost = sorted(mine - _set(o2.get("rev")))
+                if lost:
+                    out.append({"what": "namespace %s was deleted; its lease(s) %s were wiped from storage without being revoked at "
+                                        "their backend" % (f[1], lost), "signature": "C05b:namespace-delete-drops-leases-unrevoked", "op": op})
             if f[0] == "rolecreate" and res.startswith("ok:") and f[4] == "0":
                 nonrenewable.add(res.split(":")[1])
             if f[0] == "tokcreate" and res.startswith("ok:") and f[3] == "0":
